@@ -721,6 +721,10 @@ type genKey struct {
 }
 
 func gen(r *hx.Rng, n int, tier string) []string {
+	// hx seeds are consecutive integers and splitmix states of consecutive seeds
+	// are one step apart; re-seed from a mixed output so that runs with
+	// different seeds explore different cases
+	r = hx.NewRng(r.U64() ^ (r.U64() << 1) ^ 0xC12C12C12)
 	c := getCatalogue()
 	var lines []string
 	var pool []genKey // keys generated so far, reused for keyset cases
